@@ -163,7 +163,7 @@ def ref_shapes(ctx):
     for n in range(25 if ctx.quick else 600):
         sh = envgen.random_shape(rng, maxdepth=3)
         if not sh["deps"]:
-            sh["deps"] = [["#dep", envgen.random_shape(rng, depth=1, maxdepth=3, small=True), rng.choice(["inline", "path"]), rng.choice(envgen.ALGS)]]
+            sh["deps"] = [["#dep", envgen.random_shape(rng, depth=1, maxdepth=3, small=True), rng.choice(["inline", "path", "alias"]), rng.choice(envgen.ALGS)]]
         sh["imgs"] = [[rng.choice(["file", "file_direct", "raw"]), rng.choice(envgen.ALGS), rng.choice(SIZES[:6]), rng.randrange(9999)]]
         out.append(sh)
     return out
